@@ -60,7 +60,7 @@ def ref_pool(entries, asg) -> List[str]:
     offered = []
     for e in entries:
         r = ref_ahb(plain_parts(e["x"]), asg)
-        if r == "INVALID" or r[1]:
+        if (r == "INVALID" or r[1]) and e["q"] not in offered:  # a qualifier listed more than once is offered (once) if one of its entries is admissible
             offered.append(e["q"])
     return offered
 
@@ -81,12 +81,13 @@ def ref_validate(spec, asg: Dict[str, str], soll: bool) -> List[Tuple[str, str, 
 
     def data_element(d, seg_status):
         if d["k"] == "F":
+            name = None if d.get("nod") else d["d"]  # "nod": the element has no discriminator (maus: "None if the data element was not found in the MIG")
             r = ref_ahb(plain_parts(d["x"]), asg)
             if r == "INVALID":
-                out.append((d["d"], "IS_OPTIONAL?", None, None))  # C16: reported optional; the suffix rule speaks of valid nodes
+                out.append((name, "IS_OPTIONAL?", None, None))  # C16: reported optional; the suffix rule speaks of valid nodes
                 return
             status = ref_combine(seg_status, ref_map(r[0], r[1], soll)) + ("_AND_FILLED" if d["input"] else "_AND_EMPTY")
-            out.append((d["d"], status, None, None))
+            out.append((name, status, None, None))
             return
         offered = ref_pool(d["entries"], asg)
         if not offered:
